@@ -205,17 +205,20 @@ func (cv *ConfigValue) String() string {
 	return cv.Value
 }
 
-// NamespacedName ...
-func (cv *ConfigValue) NamespacedName() (namespace, name string, err error) {
+// ResourceName returns the namespace of the object that declares the value,
+// to be used as the default namespace when reading the resource, and the
+// resource name as it was declared, so cross namespace reads can be validated.
+// Global configurations have no default namespace and need a fully qualified name.
+func (cv *ConfigValue) ResourceName() (defaultNamespace, resourceName string, err error) {
 	value := strings.Split(cv.Value, "/")
 	if len(value) > 2 {
 		return "", "", fmt.Errorf("unpexpected format for resource name: %s", cv.Value)
 	}
-	if len(value) == 2 {
-		return value[0], value[1], nil
-	}
 	if s := cv.Source; s != nil {
-		return s.Namespace, value[0], nil
+		return s.Namespace, cv.Value, nil
+	}
+	if len(value) == 2 {
+		return "", cv.Value, nil
 	}
 	return "", "", fmt.Errorf("a globally configured resource name is missing the namespace: %s", cv.Value)
 }
